@@ -509,7 +509,10 @@ def equivalent(dfa, t):
             return False, (path, 'spec accepts rule %s, committed tables accept rule %s' % (la1 or None, lb or None)), len(seen)
         for byte in range(1, 256):
             na = dfa.delta[a][byte]
-            if byte >= t.get('width', 256):
+            if byte >= t.get('width', 256) or (t.get('mode') != 'full' and byte >= len(t.get('yy_ec') or [])):
+                if t.get('mode') != 'full' and byte < t.get('width', 256):
+                    return False, (path + bytes([byte]), 'the committed equivalence-class table yy_ec has only %d entries (7-bit scanner): byte 0x%02x indexes outside it' % (
+                        len(t.get('yy_ec') or []), byte)), len(seen)
                 return False, (path + bytes([byte]), 'the committed transition table is only %d columns wide (7-bit scanner): byte 0x%02x indexes outside it, '
                                                      'the specification %s' % (t['width'], byte, 'has no transition either' if na < 0 else 'continues')), len(seen)
             nb = table_step(t, b, byte)
